@@ -5,6 +5,18 @@ NOTES = ("Contract-based deductive verification of the real code. Engine V: Veru
          "anchor, vacuous canary) - never an alarm. See DESIGN.md.")
 
 CHECKS = {
+    'C06': {
+        'engine': 'V',
+        'technique': 'Verus contracts on assign_api_bindings/process_definition: slot = per-group prefix sum of needed lengths',
+        'level_text': 'Unbounded deductive proof (Verus) on the verbatim text of Module::assign_api_bindings and its nested process_definition: for every module '
+                      'and every declaration sequence each bound resource gets api slot = sum of the needed lengths of the earlier declarations of its group '
+                      '(so ranges start at zero, follow declaration order, have no gaps and cannot overlap), buffer addresses get 8-byte offsets in the inline block, '
+                      'unbound declarations get nothing, and nothing else in the module changes.',
+        'level_note': 'Assumed: TypeRegistry::get_type_layer returns layers[id] (RefCell), TypeLayer::is_object and ObjectType::get_register_type contracts, '
+                      'std models of HashMap consuming iteration and slice sort, derived Clone = identity. Machine-arithmetic side conditions are preconditions, not proved of the typer: '
+                      'array lengths and per-group totals < 2^28, each declaration listed once, type registry well-formed. Rewrites N1 (or-pattern+guard split), N3 (mut self), '
+                      'N4 (for-loop desugaring) are applied to the extracted text and printed in evidence.',
+    },
     'C11': {
         'engine': 'V',
         'technique': 'Verus contracts on ConditionChain (abstraction to C (now,taken) levels) + lemmas',
